@@ -1,4 +1,213 @@
-/- C06 — model and specification (stub; see HACKING.md) -/
+/-
+  C06 — written files are well-formed SHELXL: bounded line length, sound continuation.
+
+  Model of (text as `List Char`; the only white space in the domain is the blank):
+    misc.wrap_line                          (misc.py)   -> `wrapLine`
+      textwrap.wrap(text, width, subsequent_indent=…, drop_whitespace=False, replace_whitespace=False,
+                    break_on_hyphens=False)  (CPython)   -> `chunks`, `fill`, `lineStep`, `wrapLoop`, `pieces`
+      `ln += ' =\n'`, `' '.join(newline)`                -> `joinPieces`
+    Shelxfile.write_shelx_file per item     (shelx.py)  -> `writeItem`  (wrap every '\n'-separated part)
+    FVARs.__str__  (groups of seven)        (cards.py)  -> `groups`, `fvarLines`, `renderFvars`
+    SFACTable._extend_sfac_text             (cards.py)  -> `sfacLine`
+  The constants (width, indent, suffix, separator, the length below which a line is returned unchanged, the FVAR
+  group size and prefixes) are NOT written here: they come from `ShelxModel/Extracted/Wrap.lean`, which the
+  translator regenerates from the source on every run (`Cfg.extracted`).
+
+  Specification (code independent): `physLines` (split at '\n'), `flagged`/`body` (a physical line whose last
+  non-blank character is '=' is continued on the next physical line), `unwrapLines` (the continuation-joining
+  lexer), `tokens` (split at blanks), `nonblank`, `endsWithEq`, `startsBlank`, `shapeOk`.
+-/
+import ShelxModel.Extracted.Wrap
+
 namespace Shelx.C06
+
+/-! ### generic helpers (used by model and spec) -/
+
+/-- split at every occurrence of `s` (like `str.split(s)`): never empty, keeps empty fields -/
+def splitOnC (s : Char) : List Char → List (List Char)
+  | [] => [[]]
+  | c :: cs =>
+    if c = s then [] :: splitOnC s cs
+    else match splitOnC s cs with
+      | h :: t => (c :: h) :: t
+      | [] => [[c]]
+
+/-- `sep.join(parts)` -/
+def joinWith (sep : List Char) : List (List Char) → List Char
+  | [] => []
+  | [p] => p
+  | p :: q :: ps => p ++ sep ++ joinWith sep (q :: ps)
+
+/-! ### Model -/
+
+structure Cfg where
+  /-- `wrap_line` returns a line of at most this many characters unchanged -/
+  shortMax : Nat
+  /-- `textwrap.wrap(width=…)` -/
+  width : Nat
+  /-- `subsequent_indent` -/
+  indent : List Char
+  /-- appended to every piece but the last (`' =\n'`) -/
+  suffix : List Char
+  /-- the string the pieces are joined with (`' '`) -/
+  sep : List Char
+deriving Repr
+
+/-- the constants the code has now -/
+def Cfg.extracted : Cfg :=
+  { shortMax := Extracted.Wrap.shortMax, width := Extracted.Wrap.width, indent := Extracted.Wrap.indent,
+    suffix := Extracted.Wrap.suffix, sep := Extracted.Wrap.sep }
+
+/-- `wordsep_simple_re.split(text)` without the empty strings: the maximal runs of blanks and of non-blanks -/
+def chunks : List Char → List (List Char)
+  | [] => []
+  | c :: cs =>
+    match chunks cs with
+    | [] => [[c]]
+    | [] :: rest => [c] :: rest
+    | (d :: ds) :: rest => if (c == ' ') = (d == ' ') then (c :: d :: ds) :: rest else [c] :: (d :: ds) :: rest
+
+/-- the inner `while chunks:` loop of `_wrap_chunks`: whole chunks are taken while `cur_len + len(chunk) <= width`.
+    Returns the text taken and the chunks left. -/
+def fill (width : Nat) : Nat → List (List Char) → List Char × List (List Char)
+  | _, [] => ([], [])
+  | cur, ch :: rest =>
+    if cur + ch.length ≤ width then
+      let r := fill width (cur + ch.length) rest
+      (ch ++ r.1, r.2)
+    else ([], ch :: rest)
+
+/-- one iteration of the outer loop of `_wrap_chunks` (without the indent): fill, then `_handle_long_word`
+    (`break_long_words=True`, `break_on_hyphens=False`) when the next chunk does not fit on any line -/
+def lineStep (width : Nat) (chs : List (List Char)) : List Char × List (List Char) :=
+  let r := fill width 0 chs
+  match r.2 with
+  | [] => (r.1, [])
+  | ch :: rest =>
+    if ch.length > width then
+      let space := if width < 1 then 1 else width - r.1.length
+      (r.1 ++ ch.take space, ch.drop space :: rest)
+    else (r.1, ch :: rest)
+
+/-- the outer loop; `w` is the width available on this line, `w'` on every later line. The fuel is the number of
+    characters + 1 (every iteration consumes at least one character: `wrapLoop_flatten`). -/
+def wrapLoop (w' : Nat) : Nat → Nat → List (List Char) → List (List Char)
+  | 0, _, _ => []
+  | _, _, [] => []
+  | fuel + 1, w, ch :: chs =>
+    let r := lineStep w (ch :: chs)
+    r.1 :: wrapLoop w' fuel w' r.2
+
+/-- the line contents chosen by `textwrap.wrap`, before the indent is put in front -/
+def rawPieces (cfg : Cfg) (l : List Char) : List (List Char) :=
+  wrapLoop (cfg.width - cfg.indent.length) (l.length + 1) cfg.width (chunks l)
+
+def addIndent (indent : List Char) : List (List Char) → List (List Char)
+  | [] => []
+  | p :: ps => p :: ps.map (indent ++ ·)
+
+/-- `textwrap.wrap(line, width, subsequent_indent=indent, drop_whitespace=False, …)` -/
+def pieces (cfg : Cfg) (l : List Char) : List (List Char) := addIndent cfg.indent (rawPieces cfg l)
+
+/-- `ln += ' =\n'` for all but the last piece, then `' '.join(newline)` -/
+def joinPieces (cfg : Cfg) : List (List Char) → List Char
+  | [] => []
+  | [p] => p
+  | p :: q :: ps => p ++ cfg.suffix ++ cfg.sep ++ joinPieces cfg (q :: ps)
+
+/-- `misc.wrap_line` -/
+def wrapLine (cfg : Cfg) (l : List Char) : List Char :=
+  if l.length ≤ cfg.shortMax then l else joinPieces cfg (pieces cfg l)
+
+/-- `"\n".join([wrap_line(x) for x in str(item).split("\n")])` of `write_shelx_file` -/
+def writeItem (cfg : Cfg) (text : List Char) : List Char :=
+  joinWith ['\n'] ((splitOnC '\n' text).map (wrapLine cfg))
+
+/-- `misc.chunks(l, n)`: `[l[i:i+n] for i in range(0, len(l), n)]` (fuel = `len(l)`) -/
+def groupsAux {α} (n : Nat) : Nat → List α → List (List α)
+  | 0, _ => []
+  | _, [] => []
+  | fuel + 1, a :: l => (a :: l).take n :: groupsAux n fuel ((a :: l).drop n)
+
+def groups {α} (n : Nat) (l : List α) : List (List α) := groupsAux n l.length l
+
+/-- the lines of `FVARs.__str__`: `prefix + sep.join(group)` per group of `n` values -/
+def fvarLines (n : Nat) (pre sep : List Char) (vals : List (List Char)) : List (List Char) :=
+  (groups n vals).map fun g => pre ++ joinWith sep g
+
+def renderFvars (n : Nat) (pre sep : List Char) (vals : List (List Char)) : List Char :=
+  joinWith ['\n'] (fvarLines n pre sep vals)
+
+/-- `SFAC ` + `'  '.join(elements)` -/
+def sfacLine (pre sep : List Char) (els : List (List Char)) : List Char := pre ++ joinWith sep els
+
+/-! ### Specification -/
+
+/-- physical lines of a text -/
+def physLines (t : List Char) : List (List Char) := splitOnC '\n' t
+
+/-- the token sequence of a line: the non-empty fields between blanks -/
+def tokens (l : List Char) : List (List Char) := (splitOnC ' ' l).filter (· ≠ [])
+
+/-- the non-blank characters of a line, in order -/
+def nonblank (l : List Char) : List Char := l.filter (· ≠ ' ')
+
+/-- last non-blank character -/
+def lastNB (l : List Char) : Option Char := l.reverse.find? (· ≠ ' ')
+
+/-- SHELXL: a line whose last non-blank character is '=' is continued on the next line -/
+def flagged (pl : List Char) : Bool := lastNB pl == some '='
+
+/-- the text of a flagged line in front of the '=' -/
+def body (pl : List Char) : List Char := ((pl.reverse.dropWhile (· = ' ')).drop 1).reverse
+
+/-- the continuation-joining lexer: physical lines -> logical lines (`none`: the last line is flagged, i.e. the
+    continuation runs into whatever follows) -/
+def unwrapLines : List (List Char) → Option (List (List Char))
+  | [] => some []
+  | pl :: rest =>
+    if flagged pl then
+      match rest, unwrapLines rest with
+      | [], _ => none
+      | _ :: _, some (h :: t) => some ((body pl ++ h) :: t)
+      | _ :: _, _ => none
+    else (unwrapLines rest).map (pl :: ·)
+
+/-- logical lines of a written text -/
+def logical (t : List Char) : Option (List (List Char)) := unwrapLines (physLines t)
+
+def endsWithEq (pl : List Char) : Bool := pl.reverse.take 2 == ['=', ' ']
+
+def startsBlank (pl : List Char) : Bool := pl.head? == some ' '
+
+/-- every physical line but the last ends in " =", every physical line but the first begins with a blank -/
+def shapeOk (pls : List (List Char)) : Bool := pls.dropLast.all endsWithEq && pls.tail.all startsBlank
+
+def maxLen (pls : List (List Char)) : Nat := pls.foldl (fun m p => max m p.length) 0
+
+/-- hypotheses of the theorems, as decidable predicates -/
+def noNL (l : List Char) : Bool := !l.contains '\n'
+
+/-- the instruction itself does not end in a continuation mark -/
+def endOk (l : List Char) : Bool := !flagged l
+
+/-- no token is longer than what fits on a continuation line -/
+def noLongTok (W : Nat) (l : List Char) : Bool := (tokens l).all (·.length ≤ W)
+
+/-- a SHELX parameter / keyword: non-empty, no blank, no newline -/
+def isTok (t : List Char) : Bool := t ≠ [] && !t.contains ' ' && !t.contains '\n'
+
+/-- second half of the property, per logical line: the line is an instruction with at least one parameter -/
+def keywordWithParams (kw : List Char) (l : List Char) : Bool :=
+  match tokens l with
+  | k :: _ :: _ => k == kw
+  | _ => false
+
+/-- a line that is no instruction, atom, comment or include: empty, or its first token begins like a number -/
+def bareLine (l : List Char) : Bool :=
+  match tokens l with
+  | [] => true
+  | (c :: _) :: _ => c.isDigit || c == '.' || c == '-' || c == '='
+  | [] :: _ => true
 
 end Shelx.C06
